@@ -89,8 +89,23 @@ def _memo_shape(rng):
     root["depends"] = [{"name": n, "use": ["result", "deps"]} for n in wrappers]
     recipes["root"] = root
     order += wrappers + list(reversed(mids)) + leaves
+    feats = ["memo-shape"]
+    if rng.random() < 0.5:
+        # an optional tool: the leaves ask whether it is defined; its provider is forwarded by root
+        # somewhere in the middle of the dependency list, so the same recipes are reached without
+        # and with the tool
+        z = rng.choice([v for v in projgen.VARPOOL if v not in (x, y)])
+        for n in leaves:
+            recipes[n]["environment"][z] = "$(is-tool-defined,toolO)"
+            recipes[n]["packageVars"] = sorted(set(recipes[n]["packageVars"]) | {z})
+        tp = projgen._leaf(rng)
+        tp["provideTools"] = {"toolO": {"path": ".", "libs": []}}
+        recipes["tp"] = tp
+        root["depends"].insert(rng.randint(1, len(root["depends"]) - 1), {"name": "tp", "use": ["tools"], "forward": True})
+        order.append("tp")
+        feats.append("optional-tool")
     return {"recipes": recipes, "classes": {}, "default_env": {}, "sources": {}, "order": order,
-            "features": ["memo-shape"]}
+            "features": feats}
 
 def gen_case(rng, tier, index):
     if index % 3 == 2:
